@@ -147,3 +147,22 @@ def result_shape(S):
 c.result_shape = result_shape
 c.pure = True
 c.assumptions.append("T-path: pathlib constructor/join/parent/parts/relative_to/is_relative_to axioms (DESIGN.md 3.2); J1 str(p) parses back to p")
+
+
+# Summary without path theory, for units whose obligations do not speak about paths (workers: C12/C13/C14):
+# dropping the postconditions only weakens what callers may assume.
+ca = contract(SERVER, "Server.get_paths", props=[], name="Server.get_paths#opaque")
+ca.self_check = False
+ca.pure = True
+ca.requires("conn_done(connection, 'user') and conn_done(connection, 'current_directory')", "user-and-cwd-set")
+
+
+def _opaque_result(S):
+    base = S.vars["connection"].slots["user"].fut.value.fields["base_path"]
+    real = PathVal("any", None, None, opaque=z3.Const(f"real!{next(models_path._ctr)}", models_path.OP))
+    real.resolved_for = S.vars["connection"].slots["user"].fut.value
+    virtual = PathVal("any", None, None, opaque=z3.Const(f"virtual!{next(models_path._ctr)}", models_path.OP))
+    return (real, virtual)
+
+
+ca.result_shape = _opaque_result
